@@ -1,3 +1,1 @@
 package engine
-
-func (g *Gen) genQueries(midBlock bool) bool { return true }
